@@ -141,5 +141,49 @@ func TestRaceC18(t *testing.T) {
 		wg.Wait()
 		atk.Stop()
 	}
+	// several dial paths alive in one process: two attackers side by side, and
+	// options applied twice to one attacker (each application wraps the previous dial function)
+	multi := map[string][]func() []func(*vegeta.Attacker){
+		"two-attackers": {
+			func() []func(*vegeta.Attacker) { return []func(*vegeta.Attacker){opts[0].f(), opts[1].f()} },
+			func() []func(*vegeta.Attacker) { return []func(*vegeta.Attacker){opts[0].f(), opts[1].f()} },
+		},
+		"options-applied-twice": {
+			func() []func(*vegeta.Attacker) {
+				return []func(*vegeta.Attacker){opts[0].f(), opts[1].f(), opts[0].f(), opts[1].f()}
+			},
+		},
+	}
+	for _, name := range []string{"two-attackers", "options-applied-twice"} {
+		var wg sync.WaitGroup
+		var atks []*vegeta.Attacker
+		for _, mk := range multi[name] {
+			tr := &http.Transport{DialContext: func(ctx context.Context, network, addr string) (net.Conn, error) {
+				return fakeConn{}, nil
+			}}
+			atks = append(atks, vegeta.NewAttacker(append([]func(*vegeta.Attacker){vegeta.Client(&http.Client{Transport: tr})}, mk()...)...))
+			dial := tr.DialContext
+			for w := 0; w < 32; w++ {
+				wg.Add(1)
+				go func(w int) {
+					defer wg.Done()
+					for k := 0; k < 200; k++ {
+						addr := []string{"multi.test:80", "mapped.test:80", "one.test:80"}[(w+k)%3]
+						ctx, cancel := context.WithTimeout(context.Background(), 2*time.Second)
+						if c, err := dial(ctx, "tcp", addr); err == nil && c != nil {
+							c.Close()
+						}
+						cancel()
+						atomic.AddInt64(&dials, 1)
+					}
+				}(w)
+			}
+		}
+		wg.Wait()
+		for _, a := range atks {
+			a.Stop()
+		}
+		built++
+	}
 	fmt.Printf("RACE-COMPANION: option orders composed=%d not-composable=%d dials=%d\n", built, skipped, dials)
 }
